@@ -631,6 +631,12 @@ def run(chk, repo, tier):
     fit_tilt_rules(chk, repo, 'C04-j')
     ptt_mask_rule(chk, repo, 'C04-j')
     fit_tilt_rule(chk, repo, 'C04-f')
+    # a tilt element met before the first sampled plane multiplies two one-element fields: they meet where their offsets are
+    # equal by value; and a chip that shares a single row or column with the output is still propagated
+    from .c06 import scalar_product_rule as _scalar_product_rule
+    _scalar_product_rule(chk, repo, 'C04-e')
+    from .extent_rules import extent_identities as _extent_identities4
+    _extent_identities4(chk, repo, 'C04-e')
     # a fit on a copy (the default) leaves the original as it was: the copy has tilt list and arrays of its own
     from .c10 import plane_copy_rules as _plane_copy_rules
     _plane_copy_rules(chk, repo, 'C04-f')
